@@ -1,12 +1,21 @@
 """Native fault-injection harness for util.io.atomic_write: replays a sequence of external-call outcomes
 (and an optional kill point) on the real code and the real file system, by monkeypatching inside this
-process only.  Used (a) to replay counterexamples of the C19 proof tier and (b) by the bounded tier."""
+process only.  Used (a) to replay counterexamples of the C19 proof tier and (b) by the bounded tier.
+
+Two modes.  Default (proof-tier replay): the externals of the ghost-FS model (open_, file.write/close, Path.unlink/
+rename/replace, shutil.rmtree, os.unlink).  ``Script(..., full=True)`` (bounded tier) additionally intercepts
+mkdtemp, file.writelines, the ZipFile(...,"a"/"w") open / write / close of ``_close_rename_zip`` and the ``open_`` that
+``app.data_store`` imported by name; file data is held back until close (like Python's own buffer), so that a kill
+between write and close leaves what a SIGKILL leaves: an empty file.  A trace entry ("*", "fail") makes whatever
+external comes at that position fail in its natural way."""
 from __future__ import annotations
 
 import contextlib
+import io
 import os
 import pathlib
 import shutil
+import sys
 import tempfile
 
 OLD_TEXT = ">old\nAAAA\n"
@@ -17,8 +26,11 @@ class Kill(BaseException):
     """the process dies here: no further Python code of the writer runs"""
 
 
+FAIL = ("OSError", "PermissionError", "fail")
+
+
 class Script:
-    def __init__(self, trace, kill_after=None, kill_before=None):
+    def __init__(self, trace, kill_after=None, kill_before=None, full=False):
         self.trace = [t.split(":", 1) if isinstance(t, str) else list(t) for t in trace]
         self.pos = 0
         self.kill_after = kill_after      # number of completed externals after which the process is killed
@@ -26,64 +38,211 @@ class Script:
         self.diverged = None
         self.log = []
         self.inside = 0   # >0 while the real implementation of an intercepted call runs (it may call others)
+        self.full = full  # bounded-tier mode, see module docstring
+        self.killed = False
+        self.files = []   # open proxies: a kill abandons them without flushing
+        self.failed = []  # names of the externals that were made to fail
+        self.unintercepted = []  # (full mode, audit hook) file-system mutations outside every intercepted external
+
+    def _die(self):
+        self.killed = True
+        for f in self.files:
+            f._abandon()
+        raise Kill()
 
     def next(self, name):
-        if getattr(self, "killed", False):
+        if self.killed:
             raise Kill()   # the process is dead: code that Python would still run (finally blocks) has no effect
         if self.kill_before is not None and self.pos == self.kill_before:
-            self.killed = True
-            raise Kill()
+            self._die()
         if self.pos >= len(self.trace):
             self.log.append(f"{name}:ok(unscripted)")
             self.pos += 1
             return "ok"
         want, label = self.trace[self.pos]
-        if want != name:
+        if want not in (name, "*"):
             self.diverged = f"external #{self.pos}: model expects {want}, real code calls {name}"
             label = "ok"
         self.pos += 1
         self.log.append(f"{name}:{label}")
+        if label in FAIL or label.startswith("silently"):
+            self.failed.append(name)
         return label
 
     def done(self):
         if self.kill_after is not None and self.pos == self.kill_after:
-            self.killed = True
-            raise Kill()
+            self._die()
 
 
 class FileProxy:
     def __init__(self, real, script):
         self._real, self._script, self._closed = real, script, False
+        self._pending = []
+        script.files.append(self)
+
+    def _flush_pending(self):
+        for chunk in self._pending:
+            self._real.write(chunk)
+        self._pending = []
+
+    def _abandon(self):
+        """the process died: buffered data is lost, the descriptor is closed by the kernel"""
+        self._pending = []
+        if isinstance(self._real, io.IOBase):
+            with contextlib.suppress(BaseException):
+                self._real.close()
 
     def write(self, text):
         label = self._script.next("file.write")
-        if label == "OSError":
+        if label in FAIL:
+            self._flush_pending()
             self._real.write(text[: len(text) // 2])
             self._real.flush()
             raise OSError("injected: write failed")
-        r = self._real.write(text)
+        if self._script.full:
+            self._pending.append(text)
+            r = len(text)
+        else:
+            r = self._real.write(text)
         self._script.done()
         return r
+
+    def writelines(self, lines):
+        if not self._script.full:
+            return self._real.writelines(lines)
+        lines = list(lines)
+        label = self._script.next("file.writelines")
+        if label in FAIL:
+            self._flush_pending()
+            for ln in lines[: len(lines) // 2]:
+                self._real.write(ln)
+            self._real.flush()
+            raise OSError("injected: writelines failed")
+        self._real.writelines   # AttributeError here exactly when the real object has no writelines
+        self._pending.extend(lines)
+        self._script.done()
 
     def close(self):
         if self._closed:
             return
         label = self._script.next("file.close")
-        if label == "OSError":
+        if label in FAIL:
             raise OSError("injected: close failed")
         self._closed = True
+        self._flush_pending()
         self._real.close()
         self._script.done()
 
+    def __enter__(self):
+        return self
+
+    def __exit__(self, *exc):
+        self.close()
+
     def __getattr__(self, k):
         return getattr(self._real, k)
+
+
+class ZipProxy:
+    """the archive that _close_rename_zip appends to (full mode): open / write / close are externals"""
+
+    def __init__(self, real, script):
+        self._real, self._script, self._closed = real, script, False
+        script.files.append(self)
+
+    def _abandon(self):
+        """the process died (or writing the central directory failed): what was written so far stays on disk,
+        the central directory / end record is never written"""
+        self._closed = True
+        fp = getattr(self._real, "fp", None)
+        if fp is not None:
+            with contextlib.suppress(BaseException):
+                fp.close()
+            self._real.fp = None   # ZipFile.close()/__del__ return at once when fp is None
+
+    def write(self, filename, arcname=None, *a, **kw):
+        label = self._script.next("ZipFile.write")
+        if label in FAIL:
+            raise OSError("injected: ZipFile.write failed")
+        self._script.inside += 1
+        try:
+            self._real.write(filename, arcname, *a, **kw)
+            self._real.fp.flush()
+        finally:
+            self._script.inside -= 1
+        self._script.done()
+
+    def close(self):
+        if self._closed:
+            return
+        label = self._script.next("ZipFile.close")
+        if label in FAIL:
+            self._abandon()
+            raise OSError("injected: ZipFile.close failed")
+        self._closed = True
+        self._script.inside += 1
+        try:
+            self._real.close()
+        finally:
+            self._script.inside -= 1
+        self._script.done()
+
+    def __enter__(self):
+        return self
+
+    def __exit__(self, *exc):
+        self.close()
+
+    def __getattr__(self, k):
+        return getattr(self._real, k)
+
+
+# ---- audit hook (full mode): every file-system mutation must happen inside an intercepted external
+_AUDIT = {"installed": False, "script": None, "root": None}
+_MUTATORS = {"os.remove", "os.rename", "os.rmdir", "os.mkdir", "os.truncate", "os.link", "os.symlink",
+             "shutil.rmtree", "shutil.move", "shutil.copyfile", "shutil.copytree", "tempfile.mkdtemp", "tempfile.mkstemp"}
+
+
+def _audit(event, args):
+    script = _AUDIT["script"]
+    if script is None or script.inside:
+        return
+    if event == "open":
+        path, mode, flags = (list(args) + [None, None])[:3]
+        writing = (isinstance(mode, str) and any(c in mode for c in "wax+")) or \
+            (mode is None and isinstance(flags, int) and flags & (os.O_WRONLY | os.O_RDWR | os.O_CREAT | os.O_TRUNC))
+        if not writing:
+            return
+    elif event not in _MUTATORS:
+        return
+    root = _AUDIT["root"]
+    where = [str(a) for a in args if isinstance(a, (str, bytes, os.PathLike))]
+    if root and where and not any(w.startswith(root) for w in where):
+        return
+    script.unintercepted.append(event if not script.killed else event + "(after-kill)")
+
+
+@contextlib.contextmanager
+def audited(script, root):
+    """records in script.unintercepted the mutations under ``root`` that no intercepted external accounts for"""
+    if not _AUDIT["installed"]:
+        sys.addaudithook(_audit)
+        _AUDIT["installed"] = True
+    _AUDIT["script"], _AUDIT["root"] = script, str(root)
+    try:
+        yield
+    finally:
+        _AUDIT["script"] = None
 
 
 @contextlib.contextmanager
 def patched(script):
     import cogent3.util.io as cio
     orig = dict(unlink=pathlib.Path.unlink, rename=pathlib.Path.rename, replace=pathlib.Path.replace,
-                rmtree=shutil.rmtree, os_unlink=os.unlink, open_=cio.open_)
+                rmtree=shutil.rmtree, os_unlink=os.unlink, open_=cio.open_, mkdtemp=cio.mkdtemp, ZipFile=cio.ZipFile)
+    dsm = None
+    if script.full:
+        import cogent3.app.data_store as dsm
 
     def real(fn, *a, **kw):
         script.inside += 1
@@ -96,7 +255,7 @@ def patched(script):
         if script.inside:
             return orig["unlink"](self, missing_ok=missing_ok)
         label = script.next("Path.unlink")
-        if label == "PermissionError":
+        if label in FAIL:
             raise PermissionError("injected")
         r = real(orig["unlink"], self, missing_ok=missing_ok)   # FileNotFoundError arises naturally
         script.done()
@@ -107,7 +266,7 @@ def patched(script):
             if script.inside:
                 return orig[which](self, target)
             label = script.next(f"Path.{which}")
-            if label == "OSError":
+            if label in FAIL:
                 raise OSError("injected")
             r = real(orig[which], self, target)
             script.done()
@@ -118,6 +277,8 @@ def patched(script):
         if script.inside:
             return orig["rmtree"](path, ignore_errors=ignore_errors, **kw)
         label = script.next("shutil.rmtree")
+        if label == "fail":   # the natural failure: swallowed under ignore_errors, OSError otherwise
+            label = "silently-failed" if ignore_errors else "OSError"
         if label == "OSError":
             raise OSError("injected")
         if label.startswith("silently"):
@@ -130,7 +291,7 @@ def patched(script):
         if script.inside:
             return orig["os_unlink"](path, *a, **kw)
         label = script.next("os.unlink")
-        if label == "PermissionError":
+        if label in FAIL:
             raise PermissionError("injected")
         r = real(orig["os_unlink"], path, *a, **kw)
         script.done()
@@ -140,19 +301,45 @@ def patched(script):
         if "w" not in mode or script.inside:
             return orig["open_"](filename, mode, **kw)
         label = script.next("open_")
-        if label == "OSError":
+        if label in FAIL:
             raise OSError("injected")
         f = FileProxy(real(orig["open_"], filename, mode, **kw), script)
         script.done()
         return f
 
+    def mkdtemp(*a, **kw):
+        if script.inside:
+            return orig["mkdtemp"](*a, **kw)
+        label = script.next("mkdtemp")
+        if label in FAIL:
+            raise OSError("injected")
+        r = real(orig["mkdtemp"], *a, **kw)
+        script.done()
+        return r
+
+    def zipfile_(file, mode="r", *a, **kw):
+        if script.inside or mode == "r":
+            return orig["ZipFile"](file, mode, *a, **kw)
+        label = script.next("ZipFile.open")
+        if label in FAIL:
+            raise OSError("injected")
+        z = ZipProxy(real(orig["ZipFile"], file, mode, *a, **kw), script)
+        script.done()
+        return z
+
     pathlib.Path.unlink, pathlib.Path.rename, pathlib.Path.replace = unlink, mk_move("rename"), mk_move("replace")
     shutil.rmtree, os.unlink, cio.open_ = rmtree, os_unlink, open_
+    if script.full:
+        cio.mkdtemp, cio.ZipFile = mkdtemp, zipfile_
+        dsm_open, dsm.open_ = dsm.open_, open_
     try:
         yield
     finally:
         pathlib.Path.unlink, pathlib.Path.rename, pathlib.Path.replace = orig["unlink"], orig["rename"], orig["replace"]
         shutil.rmtree, os.unlink, cio.open_ = orig["rmtree"], orig["os_unlink"], orig["open_"]
+        if script.full:
+            cio.mkdtemp, cio.ZipFile = orig["mkdtemp"], orig["ZipFile"]
+            dsm.open_ = dsm_open
 
 
 def run_scenario(scen, dest, script):
